@@ -595,3 +595,30 @@ def judge_events(workdir, module, cfg, events, chunk=20000, env=None, timeout=15
             stats["generated"] += res["generated"]
             stats["distinct"] += res["distinct"]
     return out, stats
+
+
+# ----------------------------------------------------------------------------
+# per-call time limit (non-termination is a reportable outcome, not a hang of the check)
+# ----------------------------------------------------------------------------
+
+class CallTimeout(Exception):
+    pass
+
+
+class time_limit:
+    def __init__(self, seconds):
+        self.seconds = seconds
+
+    def _raise(self, *_a):
+        raise CallTimeout()
+
+    def __enter__(self):
+        import signal
+        self._old = signal.signal(signal.SIGALRM, self._raise)
+        signal.setitimer(signal.ITIMER_REAL, self.seconds)
+
+    def __exit__(self, *a):
+        import signal
+        signal.setitimer(signal.ITIMER_REAL, 0)
+        signal.signal(signal.SIGALRM, self._old)
+        return False
